@@ -11,7 +11,7 @@ cp $wt/demo_mutation.py $out/demo_mutation.py 2>/dev/null
 cp $wt/mutation_notes.md $out/notes.md 2>/dev/null
 echo "== patch: $(wc -l < $out/patch.diff) lines"
 ( cd $wt && PYTHONPATH=$wt PYTHONWARNINGS=ignore timeout 300 /venv/bin/python demo_mutation.py >/dev/null 2>&1; echo "demo with change: exit $?" )
-( cd $wt && git stash -q && PYTHONPATH=$wt PYTHONWARNINGS=ignore timeout 300 /venv/bin/python demo_mutation.py >/dev/null 2>&1; echo "demo without change: exit $?"; git stash pop -q )
+( cd $wt && git apply -R $out/patch.diff && PYTHONPATH=$wt PYTHONWARNINGS=ignore timeout 300 /venv/bin/python demo_mutation.py >/dev/null 2>&1; echo "demo without change: exit $?"; git apply $out/patch.diff )
 ( cd $wt && PYTHONPATH=$wt timeout 900 /venv/bin/python -m pytest -q -p no:cacheprovider -n 14 --timeout=900 2>&1 | tail -1 )
 git -C /repo apply $out/patch.diff || { echo "patch does not apply to /repo"; exit 2; }
 for p in "$@"; do
